@@ -5,6 +5,7 @@ import Drv.Bonf
 import Drv.DepGraph
 import Drv.EnvP
 import Drv.RunCmd
+import Drv.Report
 open Lean
 
 def dispatch (model : String) (j : Json) : Except String Json :=
@@ -16,6 +17,7 @@ def dispatch (model : String) (j : Json) : Except String Json :=
   | "depgraph" => Drv.DepGraph.run j
   | "envp" => Drv.EnvP.run j
   | "runcmd" => Drv.RunCmd.run j
+  | "report" => Drv.Report.run j
   | "diagreads" => Drv.Diag.runReads j
   | _ => throw s!"bad-model {model}"
 
